@@ -65,7 +65,7 @@ class Contract:
         CONTRACTS[target] = self
         if self.lemma:
             from . import source
-            source.register_lemma(target, self.lemma[0], self.lemma[1])
+            source.register_lemma(target, self.lemma[0], self.lemma[1], self.lemma[2] if len(self.lemma) > 2 else None)
 
 
 def contract(target, **kw):
